@@ -2367,6 +2367,50 @@ def c10_clear(model, meta):
     return {"env": {}, "result": problems[:3], "exc": exc, "verdict": bool(problems), "cfg": cfg}
 
 
+@runner("c10:entry")
+def c10_entry(model, meta):
+    """the real wrap_numbers() with the singleton replaced by a recorder"""
+    import threading
+    from psutil import _common
+    name = str(model.get("name", "psutil.net_io_counters"))
+    calls, token, d = [], object(), {"k0": (1, 2)}
+
+    class Rec:
+        def __init__(self):
+            self.lock = threading.Lock()
+
+        def run(self, input_dict, nm):
+            calls.append((input_dict, nm, self.lock.locked()))
+            return token
+    sname = next((k for k, v in vars(_common).items() if isinstance(v, _common._WrapNumbers)), "_wn")
+    real = getattr(_common, sname)
+    rec = Rec()
+    setattr(_common, sname, rec)
+    problems, exc = [], None
+    try:
+        r = _common.wrap_numbers(d, name)
+        if len(calls) != 1:
+            problems.append(f"run() called {len(calls)} times")
+        elif calls[0][0] is not d or calls[0][1] != name or not calls[0][2]:
+            problems.append(f"run() called with {calls[0][0]!r}, {calls[0][1]!r}, lock held: {calls[0][2]} (given {d!r}, {name!r})")
+        if r is not token:
+            problems.append("the result of run() is not what wrap_numbers returns")
+        if rec.lock.locked():
+            problems.append("lock still held")
+    except Exception as e:  # noqa: BLE001
+        exc = e
+        problems.append(f"raised {type(e).__name__}: {e}")
+    finally:
+        setattr(_common, sname, real)
+    return {"env": {}, "result": problems[:3], "exc": exc, "verdict": bool(problems), "name": name}
+
+
+@search("c10:entry")
+def c10_entry_search(meta, seed, budget):
+    for nm in ("psutil.net_io_counters", "psutil.disk_io_counters", "X.Y", "", "name with spaces", "ÄÖ", "a" * 300)[:budget]:
+        yield {"name": nm}
+
+
 @search("c10:step")
 def c10_step_search(meta, seed, budget):
     import random
